@@ -221,7 +221,8 @@ var StringTokens = map[string]string{
 // EnumTokens: short strings; k9870 / k53003 have the same 32-bit xxh3 (found by a birthday search).
 var EnumTokens = map[string]string{"e1": "e1", "e2": "e2", "e3": "e3", "empty": "", "k9870": "k9870", "k53003": "k53003", "long": rep(300)}
 
-var KeyTokens = map[string]string{"k0": "", "k1": "k1", "k2": "k2", "k3": "k3", "k4": "k4"}
+var KeyTokens = map[string]string{"k0": "", "k1": "k1", "k2": "k2", "k3": "k3", "k4": "k4",
+	"k9870": "k9870", "k53003": "k53003"} // (the last two have the same 32-bit xxh3: two keys all the same)
 
 var f64Tokens = map[string]uint64{
 	"zero": 0, "negzero": 1 << 63, "one": math.Float64bits(1), "nan1": 0x7ff8000000000001, "nan2": 0x7ff0000000000bad,
@@ -242,7 +243,11 @@ func intTokens(repr string) map[string]uint64 {
 		return map[string]uint64{"zero": 0, "one": 1, "m1": uint64(uint32(0xffffffff)), "min": 0x80000000, "max": 0x7fffffff, "mid": 0x01234567}
 	case "int16":
 		return map[string]uint64{"zero": 0, "one": 1, "m1": 0xffff, "min": 0x8000, "max": 0x7fff, "mid": 0x0123}
-	case "uint", "uint64":
+	case "uint":
+		// n16 / n32: values whose top bit is set in 16 / 32 bits - the untyped writers are handed them as uint16 / uint32 (a uint
+		// column reads values of any width)
+		return map[string]uint64{"zero": 0, "one": 1, "max": ^uint64(0), "high": 1 << 63, "mid": 0x0123456789abcdef, "n16": 0x8000, "n32": 0x80000000}
+	case "uint64":
 		return map[string]uint64{"zero": 0, "one": 1, "max": ^uint64(0), "high": 1 << 63, "mid": 0x0123456789abcdef}
 	case "uint32":
 		return map[string]uint64{"zero": 0, "one": 1, "max": 0xffffffff, "high": 0x80000000, "mid": 0x01234567}
